@@ -468,10 +468,10 @@ class C12:
         # creation routes
         rvals = [13, 14, 15, 20, 25, 26, 29, 30, 31, 32, 64, 100, 1024, 8192, 16383, 16384, 16385, 16395, 24576,
                  32768, 49152, 65536, 65537, 131072, 2 ** 20, 2 ** 20 + 1, 2 ** 24, 2 ** 26, 1, 2, 0, -14, -16384,
-                 -32768, -(2 ** 20), -(2 ** 40)]
+                 -32768, -(2 ** 20), -(2 ** 40)] + list(range(3, 14))     # small numbers that a second expansion could lift
         rvals += [rng.randint(1, 2 ** 20) for _ in range(20 if tier == "quick" else 200)]
         rvals += [(1 << rng.randint(5, 26)) + rng.choice([0, 0, 1, -1]) for _ in range(20 if tier == "quick" else 200)]
-        rstrs = ["abc", "", "²", "14.0", " 15", "+16", "016", "١٤", "1e5",
+        rstrs = ["abc", "", "²", "14.0", " 15", "+16", "016", "١٤", "1e5", "04", "4", "004", "013",
                  # words a configuration parser gives a meaning of their own
                  "true", "false", "True", "FALSE", "yes", "no", "on", "off", "none", "None", "null", "auto", "default"]
         for v in rvals:
@@ -748,7 +748,7 @@ def _c20_argv(case, path, out):
         scalars.append([case["flagnames"]["out"], out])
     if o.get("align"):
         scalars.append(["--align"])
-    scalars.append(["--prog", "0"])
+    scalars.append(["--prog", str(case.get("cli_prog", 0))])
     import random
     rng = random.Random(case["order_seed"])
     sp = case.get("cli_spelling")
@@ -906,6 +906,8 @@ class C20:
                 "config_prelude": rng.random() < 0.3,
                 "spell": rng.choice([None, None, "trailing-slash", "double-sep", "dot-segment", "dotdot"]), "cmdword": rng.choice(["create", "new"]),
                 "cli_spelling": rng.choice([None, None, "equals", "abbrev", "mixed"]), "double_dash": rng.random() < 0.3,
+                # the progress display is no create option of the statement: each route gets its own mode
+                "cli_prog": rng.choice([0, 1, 2]), "lib_prog": rng.choice([0, 1, 2]), "cfg_prog": rng.choice([0, 1, 2]),
                 "lib_path_kw": rng.choice(["path", "content"]), "lib_pl_str": rng.random() < 0.5}
 
     @staticmethod
@@ -991,7 +993,7 @@ class C20:
                 with open(ini, "w", encoding="utf-8") as fd:
                     fd.write(_c20_ini(case, outarg))
                 cfg = ["--config", "--config-path", ini] if loc == "path" else ["--config"]
-                oc = drive.cli_execute(["create"] + cfg + ["--prog", "0", root])
+                oc = drive.cli_execute(["create"] + cfg + ["--prog", str(case.get("cfg_prog", 0)), root])
                 counters["config_location_" + loc] = 1
                 if loc != "path":
                     os.remove(ini)        # not part of the produced output
@@ -999,7 +1001,7 @@ class C20:
                 if case.get("ini_inline") and any(len(o.get(k) or []) == 1 for k in ("announce", "url_list", "httpseeds")):
                     counters["config_inline_single_value"] = 1
             else:
-                kw = {case["lib_path_kw"]: root, "progress": 0}
+                kw = {case["lib_path_kw"]: root, "progress": case.get("lib_prog", 0)}
                 for k in ("announce", "url_list", "httpseeds", "private", "source", "comment", "align"):
                     if k in o:
                         kw[k] = o[k]
